@@ -109,6 +109,10 @@ def run(ctx, rep):
         else:
             rep.ok('R4-wrappers-answer', key)
     rep.floor('database-wrapper-impls', n, 13)
+    # the caching wrapper's own answer: forwarded for exactly the account states in which the wrapped
+    # database still holds the storage
+    ng = c20.check_cleared_guard(fx, rep, rule='R4-cachedb-has-storage-guard', only=('has_storage_ref', 'has_storage'))
+    rep.floor('cachedb-has-storage-guards', ng, 1)
     rep.assume('leaf databases may answer has_storage with the default; an implementor\'s own answer is trusted')
 
 
